@@ -72,6 +72,7 @@ def cases(tier, seed):
         for direction in ("fault|cancel", "cancel|fault"):
             out.append({"name": "fault.sweep/%s/%s" % (site, direction), "kind": "sweep", "site": site, "dir": direction, "cap": cap})
     out.append({"name": "fault.sweep-worker/poll_fn", "kind": "wsweep", "cap": 40 if tier == "quick" else None})
+    out.append({"name": "fault.blocked-submit/count_fn", "kind": "blockedcount"})
     for first in ("fail", "complete"):
         out.append({"name": "fault.depth2/retry/%s" % first, "kind": "depth2", "first": first, "budget": 150 if tier == "quick" else 3000})
     for layers in (["retry"], ["throttle"], ["retry", "map"], ["poll"], ["timeout"]):
@@ -588,6 +589,71 @@ class SDScenario(object):
             res.key("sdrace", self.case["name"], info.get("site"))
 
 
+def run_blockedcount(case, res):
+    """blocking throttle with a count callable that starts raising while a submit() is blocked: the user's
+    exception must not come out of submit(), the last good value stays in force."""
+    ME = instr.ME
+    for raise_from in (1, 2, 3, 4, 5, 6):
+        begin("vt")
+        ctx = Ctx()
+        tap()
+        try:
+            me = ManualExecutor("me")
+            ctx.own(me)
+            state = {"n": 0}
+
+            def count():
+                state["n"] += 1
+                if state["n"] >= raise_from and state.get("armed"):
+                    raise Fault("count#%d" % state["n"])
+                return 1
+            n0 = len(instr.TRACKED)
+            ex = ctx.own(ME.Executors.with_throttle(me, count, block=True))
+            threads = instr.TRACKED[n0:]
+            errors = []
+            futs = []
+
+            def sub(tag):
+                try:
+                    futs.append(ex.submit(lambda: tag))
+                except instr.DeadlockBroken:
+                    raise
+                except BaseException as e:
+                    errors.append((tag, e))
+            for tag in ("a", "b"):
+                a = ctx.actor("S" + tag, sub, tag).go()
+                drive([a], use_time=False)
+                instr.advance(0.05)
+            blocked = ctx.actor("Sc", sub, "c").go()
+            from ..harness import wait_done_or_blocked
+            st = wait_done_or_blocked(blocked, grace=2.0)
+            state["armed"] = True   # from now on the count callable raises
+            for k in me.pending():
+                me.run(k)
+            instr.advance(31.0)
+            for _ in range(4):
+                for k in me.pending():
+                    me.run(k)
+                instr.advance(31.0)
+            res.execs += 1
+            check_common(res)
+            label = "blocked submit (%s), count callable raises from call %d" % (st, raise_from)
+            for tag, e in errors:
+                res.violation("exception-escaped/submit/%s" % type(e).__name__, "%s: submit(%s) raised %r" % (label, tag, e))
+            dead = [t.vf_role for t in threads if not t.is_alive() or t.vf_finished]
+            if dead:
+                res.violation("worker-thread-died/ThrottleExecutor", "%s: %s dead" % (label, dead))
+            if not blocked.finished:
+                res.violation("future-stuck/count_fn", "%s: the blocked submit() never returned" % label)
+            for f in futs:
+                if not f.done():
+                    res.violation("future-stuck/count_fn", "%s: a submitted future never completed" % label)
+            if st == "parked":
+                res.key("blockedcount", raise_from)
+        finally:
+            end(ctx)
+
+
 def run_late(case, res):
     """The user cancels a combinator's output, then an input finishes / fails: nothing may be raised or logged."""
     F = instr.ME.futures
@@ -643,6 +709,8 @@ def run_case(case, res):
         Sweep(SScenario(case), res, "vt", case["name"]).run(case["cap"], rng, per_site=2)
     elif k == "depth2":
         Sweep2(D2Scenario(case), res, "vt", case["name"]).run(14, 10, rng, per_site=1, budget=case["budget"])
+    elif k == "blockedcount":
+        run_blockedcount(case, res)
     elif k == "wsweep":
         Sweep(WScenario(case), res, "vt", case["name"]).run(case["cap"], rng, per_site=3)
     elif k == "sdrace":
